@@ -460,6 +460,26 @@ func execChess(args []string) string {
 			r, err := position.NewFromFen(q.ToFen())
 			okr := err == nil && (deepEqual(r, &q) || q.Ply == 255)
 			line += fmt.Sprintf(" p.reload=%s p.shape=%s", b2s(okr), b2s(checkShape(&q)))
+			if err == nil {
+				// C12 on positions reached by a move: the attack answers of the successor object are those of the same
+				// position set up afresh (whose answers the attby/gen operations compare with the geometric definition)
+				same := true
+				if guard(func() {
+					for sq := 0; sq < 64; sq++ {
+						if q.SquareAttackedBy(uint8(sq)) != r.SquareAttackedBy(uint8(sq)) {
+							same = false
+						}
+					}
+					for _, c := range []types.Color{types.WHITE, types.BLACK} {
+						if q.IsInCheck(c) != r.IsInCheck(c) {
+							same = false
+						}
+					}
+				}) {
+					same = false
+				}
+				line += " p.attsame=" + b2s(same)
+			}
 			back := *p
 			var e2 error
 			pan2 := guard(func() { e2 = back.MakeMoveFromString(m.String()) })
